@@ -8,7 +8,7 @@
    * an edit "touches" the nodes it removes / inserts / moves (`touched`), not the node it is relative to. *)
 From Coq Require Import List Arith ZArith Bool Lia.
 From IRV Require Import Base.Exn C11.Model C11.Proofs C11.Proofs2 C11.Proofs3 C11.Proofs4 C11.Proofs5 C11.Proofs6
-  C11.ProofsR C11.ProofsR2 C11.ProofsR3.
+  C11.ProofsR C11.ProofsR2 C11.ProofsR3 C11.Heap Gen.C11Gen C11.HeapRun C11.HeapProofs C11.HeapProofs2 C11.HeapProofs3.
 Import ListNotations.
 
 (* ---- well-formedness: initial state, preserved by every edit (successes and rejections alike) *)
@@ -362,6 +362,64 @@ Example C11_rec_predicate_example :
        tr = [CEnter 0; CRec 1; CEnter 1; CEnter 1; CRec 11; CRec 12; CExit 1; CExit 1; CEnter 2; CEnter 2;
              CRec 21; CExit 2; CExit 2; CRec 2; CExit 0]).
 Proof. split; [eexists; eexists; vm_compute; reflexivity|]. eexists. eexists. eexists. vm_compute. repeat split. Qed.
+
+(* ==== the pointer code itself.  Gen/C11Gen.v is regenerated on every run from src/onnx_ir/_linked_list.py
+   (statement by statement, fail-closed) into the heap monad of C11/Heap.v: boxes with prev/next/value/owning_list,
+   _root, _length, the id->box dict.  `R h s` = heap h represents model state s: every live box and the root
+   carry the pointers DERIVED from the live sequence (prv/nxt), every erased box its frozen pointers, _length and
+   the dict agree.
+
+   FULL STATEMENT wanted (heap refinement of every translated mutator and of both iterators):
+     forall e h s, R h s -> fst (happly e h) = snd (apply_edit e s) /\ R (snd (happly e h)) (fst (apply_edit e s))
+     forall fwd h s c, R h s -> hstep fwd h c  corresponds to  step fwd s c
+   PROVED: the instance e = Remove x, i.e. the translated DoublyLinkedSet.remove and _LinkBox.erase
+   (C11_heap_remove_refines_partial), the base case (C11_heap_R_init), and the model-level pointer laws that the
+   insertion half needs (C11_pointer_laws: how prv/nxt of every box change under erase and under insertion of
+   a fresh box).  MISSING: the symbolic evaluation of the translated _insert_one_after (five nested heap updates)
+   against those laws, its lifting to _insert_many_after/append/extend/insert_after/insert_before, and the two
+   iterator loops; these are tied on every run by evaluating the translated code inside Coq on the same schedules
+   as the hand model (HeapRun.hagree / htree_fail) against the implementation's observations. *)
+Theorem C11_heap_R_init : R empty_heap empty.
+Proof. exact R_empty. Qed.
+Print Assumptions C11_heap_R_init.
+
+Theorem C11_heap_remove_refines_partial :
+  forall h s x, R h s ->
+    fst (py_remove x h) = snd (apply_edit (Remove x) s) /\ R (snd (py_remove x h)) (fst (apply_edit (Remove x) s)).
+Proof. exact py_remove_refines. Qed.
+Print Assumptions C11_heap_remove_refines_partial.
+
+(* translated _LinkBox.erase: raises on an erased box (heap untouched), otherwise exactly the pointer surgery *)
+Theorem C11_heap_erase_eval :
+  forall h sb, py_erase sb h =
+    match b_val (hbox h sb) with None => (Raise ValueError, h) | Some _ => (Ok tt, erase_heap h sb) end.
+Proof. exact py_erase_eval. Qed.
+Print Assumptions C11_heap_erase_eval.
+
+Theorem C11_pointer_laws :
+  (forall l b r, NoDup (ids l) -> In b (ids l) -> rlive l r -> r <> B b ->
+     nxt (rm_box b l) r = (if ref_eqb r (prv l (B b)) then nxt l (B b) else nxt l r) /\
+     prv (rm_box b l) r = (if ref_eqb r (nxt l (B b)) then prv l (B b) else prv l r)) /\
+  (forall l1 l2 bx r, NoDup (ids (l1 ++ bx :: l2)) -> rlive (l1 ++ bx :: l2) r ->
+     nxt (l1 ++ bx :: l2) r = (if ref_eqb r (last_ref l1) then B (fst bx)
+                               else if ref_eqb r (B (fst bx)) then head_ref l2 else nxt (l1 ++ l2) r) /\
+     prv (l1 ++ bx :: l2) r = (if ref_eqb r (head_ref l2) then B (fst bx)
+                               else if ref_eqb r (B (fst bx)) then last_ref l1 else prv (l1 ++ l2) r)).
+Proof.
+  split.
+  - intros l b r H1 H2 H3 H4. split; [apply nxt_erase|apply prv_erase]; assumption.
+  - intros l1 l2 bx r H1 H2. split; [apply nxt_insert|apply prv_insert]; assumption.
+Qed.
+Print Assumptions C11_pointer_laws.
+
+(* non-vacuity: the translated code, run on the empty heap, builds a heap related to the model state, and the
+   translated remove keeps the relation observable (lists read back through the translated iterators) *)
+Example C11_heap_example :
+  let h := snd (py_extend [1; 2; 3] empty_heap) in
+  let h' := snd (py_remove 2 h) in
+  C11.HeapRun.hlist_of true h = Some [1; 2; 3] /\ C11.HeapRun.hlist_of false h' = Some [3; 1] /\
+  hlen h' = 2%Z /\ hbox h' 2 = mkBox 1 3 None SELF /\ fst (py_remove 2 h') = Raise ValueError.
+Proof. vm_compute. repeat split. Qed.
 
 (* ---- non-vacuity: a reachable state with tombstones, a cursor parked on an erased box whose chain runs
         through a second erased box; the hypotheses of the theorems hold and the laws are observable *)
